@@ -755,6 +755,8 @@ class PipeOps(FullOps):
             return str(c)
         if isinstance(a, TV) and a.poly is not None and a.poly == Poly.sym("m"):
             return "rows"
+        if isinstance(a, TV) and a.note in ("numel", "nelement") and c is None:
+            return "-1"  # the number of elements of (the rest of) a shape: what -1 would infer (any other value makes reshape raise)
         if isinstance(a, TV) and a.note == "dim":
             return "rows" if a.poly is not None and repr(a.poly).startswith("dim0") else "dim"
         if isinstance(a, ListV):
@@ -1017,6 +1019,8 @@ class PipeOps(FullOps):
             return TRUE if isinstance(args[1], ExtV) and args[1].name.endswith("Tensor") else TV(kind="pybool", dtype="Bool")
         if fn == "isinstance" and args and isinstance(args[0], (ListV, SetV)) and isinstance(args[1], ExtV) and args[1].name.endswith("Tensor"):
             return FALSE
+        if fn == "isinstance" and args and isinstance(args[0], ListV) and isinstance(args[1], ExtV) and args[1].name.split(".")[-1] in ("Sequence", "list", "tuple", "Sized", "Collection", "Iterable"):
+            return self.isinstance_(args[0], args[1], node)
         if fn == "setattr":
             self.pev("setattr", node, attr=args[1].v if isinstance(args[1], Const) else "?", target=repr(args[0]))
             return NONE
